@@ -7,7 +7,7 @@ h=harnesses.get(hname)
 tier=sys.argv[2] if len(sys.argv)>2 else 'quick'
 shapes=h.shapes(tier)
 if len(sys.argv)>3: shapes=shapes[:int(sys.argv[3])]
-opts={'mir':'/var/tmp/verif-scratch/mir/crate.mir','repo':'/repo'}
+opts={'mir':__import__('build').mir_dump()[0],'repo':'/repo'}
 t0=time.time()
 res=engine.run_harness(hname, shapes, opts, procs=int(sys.argv[4]) if len(sys.argv)>4 else 16)
 tot=engine.summarize(res)
